@@ -332,9 +332,13 @@ def _chain_run_impl(case):
         outs = _apply(_seq_fn(vars_), case["vals"], lambda: [enc(v.var_context) for v in vars_])
         res["S"] = {"vcs": before, "outs": outs, "vcs_after": [enc(v.var_context) for v in vars_], "names": names}
     # Compose of (fresh copies of) the same variables
+    cargs, args_before, args_init = None, None, None
     try:
         from lena.variables import Compose
-        comp = Compose(*[build(e) for e in case["chain"]])
+        cargs = [build(e) for e in case["chain"]]
+        args_before = [enc(a.var_context) for a in cargs]
+        comp = Compose(*cargs)
+        args_init = [enc(a.var_context) for a in cargs]
     except Exception as e:
         res["C"] = {"e": exc_name(e), "phase": "init"}
         comp = None
@@ -345,7 +349,8 @@ def _chain_run_impl(case):
         except Exception as e:
             nm = {"e": exc_name(e)}
         outs = _apply(comp, case["vals"], lambda: enc(comp.var_context))
-        res["C"] = {"vcs": [before], "outs": outs, "vcs_after": [enc(comp.var_context)], "names": [nm]}
+        res["C"] = {"vcs": [before], "outs": outs, "vcs_after": [enc(comp.var_context)], "names": [nm],
+                    "args": [args_before, args_init, [enc(a.var_context) for a in cargs]]}
     return res
 
 
@@ -631,6 +636,10 @@ def _chain_oracle(case, res):
             continue
         if r["vcs_after"] != r["vcs"]:
             return f"{which}: applying the variables changed a var_context: {r['vcs']} -> {r['vcs_after']}"
+        if "args" in r and not (r["args"][0] == r["args"][1] == r["args"][2]):
+            when = "constructing" if r["args"][0] != r["args"][1] else "applying"
+            return (f"{when} Compose(v1..vn) changed the var_context of one of the variables v1..vn: "
+                    f"{r['args'][0]} -> {r['args'][1]} -> {r['args'][2]}")
         last_vc, last_name = r["vcs"][-1]["d"], r["names"][-1]
         for v, reps in zip(vals, r["outs"]):
             if _strip(reps[0]) != _strip(reps[1]):
@@ -685,6 +694,17 @@ def _chain_oracle(case, res):
                 for k, w in want.items():
                     if got.get(k) != w:
                         return f"Variable({e['name']!r}, type={e['type']!r}, **{e['kw']}).var_context[{k!r}] is {got.get(k)}"
+    # ---- the keyword arguments of Compose / Combine are attributes of the resulting variable (`name` of Combine too) --
+    if wf:
+        for e, vc, nm in zip(chain, S["vcs"], S["names"]):
+            if e["k"] in ("compose", "combine"):
+                for k, w in e["kw"].items():
+                    if k == "name":
+                        if e["k"] == "combine" and nm != w:
+                            return f"Combine(..., name={w!r}) has the name {nm!r}"
+                    elif vc["d"].get(k) != w:
+                        return (f"{e['k'].capitalize()}(..., {k}={w}): attribute {k!r} of the resulting variable is "
+                                f"{vc['d'].get(k)}")
     # ---- Compose(v1..vn) and the Sequence (v1..vn) give the same data and context ----------------------------
     if wf:
         for v, rs, rc in zip(vals, S["outs"], C["outs"]):
@@ -1073,6 +1093,13 @@ def _attr_run_impl(case):
             elif "call" in o:
                 r = v(_mkval(o["call"]))
                 out.append({"d": enc_data(r[0]), "c": enc(r[1])})
+            elif "vcn" in o:
+                # Python reference of notes/C14_defect_2.patch: the var_context as constructed, `name` = the keyword
+                e = case["expr"]
+                ref = enc(build(e).var_context)
+                if e["k"] == "compose" and "name" in e["kw"]:
+                    ref["d"]["name"] = e["kw"]["name"]
+                out.append({"vc": ref})
             else:
                 out.append({"vc": enc(v.var_context)})
         except Exception as e:
@@ -1199,6 +1226,8 @@ def _attr_cases(rng, n):
                 ops.append({"item": rng.randint(-6, 5)})
             elif q < 0.9:
                 ops.append({"call": g.pre_value()})
+            elif q < 0.95:
+                ops.append({"vcn": True})
             else:
                 ops.append({"vc": True})
         yield {"kind": "attr", "expr": e, "ops": ops}
@@ -1218,7 +1247,7 @@ def _attr_exhaustive():
     for e in exprs:
         cases.append({"kind": "attr", "expr": e,
                       "ops": [{"get": a} for a in ("name", "type", "a", "b", "u", "ta", "compose", "dim", "zz", "_x", "__len__")]
-                      + [{"item": 0}, {"set": "a", "v": 7}, {"get": "a"}, {"set": "unit", "v": "cm"}, {"get": "unit"},
+                      + [{"vcn": True}, {"item": 0}, {"set": "a", "v": 7}, {"get": "a"}, {"set": "unit", "v": "cm"}, {"get": "unit"},
                          {"call": val}, {"set": "name", "v": "renamed"}, {"get": "name"}, {"call": {"d": 1, "c": None}}, {"vc": True}]})
     return cases
 
@@ -1304,12 +1333,13 @@ def _tok_run_impl(case):
                 if isinstance(cv.get("compose"), list):
                     spine.add(id(cv["compose"]))
         known = len(ids)
+        ctoks = sorted(ids[i] for i in _reach(ctx_in, set())) if ctx_in is not None else []
         try:
             out = v(x)
         except Exception as e:
             steps.append({"e": exc_name(e)})
             break
-        st = {"c": _tv(out[1], ids, alive), "erased": enc(out[1])}
+        st = {"c": _tv(out[1], ids, alive), "erased": enc(out[1]), "ctoks": ctoks}
         changed = [ids[i] for i, snap in before.items() if _shallow(alive[ids[i]]) != snap]
         st["changed"] = sorted(changed)
         st["var_changed"] = sorted(ids[i] for i in var_objs if ids[i] in changed)
@@ -1371,6 +1401,8 @@ def _tok_compare(case, res, replies):
         if not b["sep"]:
             return f"step {i}: the hypothesis sepB of the token theorems does not hold on a generated case"
         old = set(ren.values())
+        if sorted(ren.get(t, -1) for t in b["ctoks"]) != a["ctoks"]:
+            return f"step {i}: objects of the value's context: impl {a['ctoks']} vs model ctxTokens {b['ctoks']}"
         c = _tv_from_model(b["c"], names, ren)
         if c != a["c"]:
             return f"step {i}: identities of the result: impl {a['c']} vs model {c}"
@@ -1480,7 +1512,7 @@ def classify(case, res):
             return ["attr", "attr:init:" + res["e"]]
         labels = ["attr", "attr:" + case["expr"]["k"]]
         for o, r in zip(case["ops"], res["r"]):
-            op = next(k for k in ("get", "set", "item", "call", "vc") if k in o)
+            op = next(k for k in ("get", "set", "item", "call", "vcn", "vc") if k in o)
             labels.append(f"attr:{op}:" + (r["e"] if "e" in r else "ok"))
         return labels
     return _chain_classify(case, res)
